@@ -4,7 +4,8 @@
 //! `NodeId::next_numeric` counter set by the hook `NodeId::verif_set_next_numeric`.
 //!
 //! Node ids are numeric only and written as `ns * 2^32 + value` (0 = null).  Browse names are
-//! `(namespace, code)`: code 0 = null string, 1 = "", k >= 2 = "n<k>".
+//! `(namespace, code)`: code 0 = null string, 1 = "", 20.. = names with reserved relative path
+//! characters (`SPECIAL`), other k >= 2 = "n<k>".
 //! Output per request: `-10` (BadNothingToDo fault), `-11` (BadTooManyOperations fault), or per
 //! item `status, returned id, changed flag [, digest]` where the digest (only when the address
 //! space differs from the previous observation) is `#nodes, (id, class, bns, bname)*, #refs,
@@ -50,13 +51,19 @@ fn zid(n: &NodeId) -> i128 {
 fn xid(z: i128, srv: i128) -> ExpandedNodeId {
     ExpandedNodeId { node_id: nid(z), namespace_uri: UAString::null(), server_index: srv as u32 }
 }
+/// names with the reserved characters of the relative path text syntax: codes 20..
+const SPECIAL: &[&str] = &["a/b", "x.y", "<t", "a&b", "#!", "3:z", "&", "/", "<0:HasChild>q", "a>b"];
 fn name_of(code: i128) -> UAString {
-    match code { 0 => UAString::null(), 1 => UAString::from(""), k => UAString::from(format!("n{}", k)) }
+    match code {
+        0 => UAString::null(), 1 => UAString::from(""),
+        k if k >= 20 && ((k - 20) as usize) < SPECIAL.len() => UAString::from(SPECIAL[(k - 20) as usize]),
+        k => UAString::from(format!("n{}", k)) }
 }
 fn code_of(s: &UAString) -> i128 {
     if s.is_null() { return 0; }
     let v = s.as_ref();
     if v.is_empty() { return 1; }
+    if let Some(k) = SPECIAL.iter().position(|x| *x == v) { return 20 + k as i128; }
     v.strip_prefix('n').and_then(|d| d.parse::<i128>().ok()).unwrap_or(-1)
 }
 fn qn(bns: i128, code: i128) -> QualifiedName { QualifiedName { namespace_index: bns as u16, name: name_of(code) } }
@@ -375,6 +382,21 @@ fn fixed_cases(_tier: &str) -> Vec<Case> {
     v.push(case(7, base_nodes(), base_refs(), vec![
         Req::AddNodes(vec![an(OBJECTS, 35, 0, 10, 1, OTYPE), an(OBJECTS, 35, 0, 10, 1, OTYPE), an(OBJECTS, 47, n1(7), 11, 2, VTYPE)]),
         Req::DelNodes(vec![DN { id: n1(7), dtr: true }, DN { id: n1(7), dtr: true }])]));
+    // browse names in namespace 2 (all rejected with BadBrowseNameInvalid before the fix): Good, the same
+    // name again is a duplicate, the same name in namespace 0 is another name
+    v.push(Case { nslen: 3, ..case(0, base_nodes(), base_refs(), vec![
+        Req::AddNodes(vec![AN { bns: 2, ..an(OBJECTS, 35, 0, 10, 1, OTYPE) }]),
+        Req::AddNodes(vec![AN { bns: 2, ..an(OBJECTS, 35, 0, 10, 1, OTYPE) }]),
+        Req::AddNodes(vec![an(OBJECTS, 35, 0, 10, 1, OTYPE)])]) });
+    // names with reserved characters of the relative path text syntax are names like any other
+    v.push(case(0, base_nodes(), base_refs(), (20..30).flat_map(|k| vec![
+        Req::AddNodes(vec![an(OBJECTS, 47, 0, k, 1, OTYPE)]), Req::AddNodes(vec![an(OBJECTS, 35, 0, k, 1, OTYPE)])]).collect()));
+    v.push(case(0, base_nodes(), base_refs(), vec![
+        Req::AddNodes(vec![an(OBJECTS, 35, n1(300), 2, 1, OTYPE)]),       // "n2"
+        Req::AddNodes(vec![an(n1(300), 47, n1(301), 3, 1, OTYPE)]),       // "n3" under it
+        Req::AddNodes(vec![an(OBJECTS, 35, 0, 20, 1, OTYPE)]),            // "a/b"
+        Req::AddNodes(vec![AN { bns: 3, ..an(OBJECTS, 35, 0, 29, 1, OTYPE) }]),
+        Req::AddNodes(vec![AN { bns: 3, ..an(OBJECTS, 35, 0, 29, 1, OTYPE) }])]));
     // empty name / null name
     v.push(case(0, base_nodes(), base_refs(), vec![obj(0, 0), obj(0, 1)]));
     v
@@ -396,7 +418,7 @@ fn gen_case(r: &mut Rng) -> Case {
         if nodes.iter().any(|n: &Node| n.id == id) { continue; }
         if (id >> 32) >= nslen + 1 { continue; } // AddressSpace::insert asserts the namespace
         if r.chance(1, 3) {
-            nodes.push(Node { id, class: *r.pick(CLASSES), bns: if r.chance(1, 8) { 2 } else { 0 }, bname: 2 + r.below(4) as i128 });
+            nodes.push(Node { id, class: *r.pick(CLASSES), bns: if r.chance(1, 6) { 2 } else { 0 }, bname: if r.chance(1, 8) { 20 + r.below(3) as i128 } else { 2 + r.below(4) as i128 } });
         }
     }
     let mut refs: Vec<(i128, i128, i128)> = Vec::new();
@@ -416,8 +438,8 @@ fn gen_case(r: &mut Rng) -> Case {
                 let typedef = match class { 1 => if r.chance(5, 6) { OTYPE } else { pick_id(r) }, 2 => if r.chance(5, 6) { VTYPE } else { pick_id(r) },
                     _ => if r.chance(5, 6) { 0 } else { pick_id(r) } };
                 let mut i = AN { parent: if r.chance(1, 2) { OBJECTS } else { pick_id(r) }, parent_srv: srv(r), reftype: *r.pick(REFTYPES),
-                    req: if r.chance(1, 2) { 0 } else { pick_id(r) }, req_srv: srv(r), bns: if r.chance(1, 10) { 2 } else { 0 },
-                    bname: if r.chance(1, 10) { r.below(2) as i128 } else { 2 + r.below(4) as i128 }, class,
+                    req: if r.chance(1, 2) { 0 } else { pick_id(r) }, req_srv: srv(r), bns: if r.chance(1, 5) { 2 } else { 0 },
+                    bname: if r.chance(1, 10) { r.below(2) as i128 } else if r.chance(1, 8) { 20 + r.below(3) as i128 } else { 2 + r.below(4) as i128 }, class,
                     attr: if r.chance(1, 10) { *r.pick(&[0i128, 3, 1, 2, 128]) } else { class }, attr_ok: !r.chance(1, 10), dims_null: r.chance(1, 4), typedef };
                 // never build a HasSubtype edge against the id order (the subtype search of the real code
                 // does not terminate on a cycle)
